@@ -241,3 +241,148 @@ func ruleAtomicConsistent(w *World, r *Report, rule string, pkgs ...string) int 
 	}
 	return n
 }
+
+// LOCK-RELEASED: on every path from a Lock / RLock call to a return of the same function the mutex is unlocked again,
+// explicitly or by a deferred Unlock registered on that path. The state is the set of possible (held, deferred) pairs
+// (a may-analysis over 4 combinations), so a conditional `if c { mu.Lock(); defer mu.Unlock() }` is exact.
+func mutexCallKind(in ssa.Instruction) (op string, key string, ok bool) {
+	c, isCall := in.(ssa.CallInstruction)
+	if !isCall {
+		return "", "", false
+	}
+	name := calleeFullName(in)
+	switch name {
+	case "(*sync.Mutex).Lock", "(*sync.RWMutex).Lock", "(*sync.RWMutex).RLock":
+		op = "lock"
+	case "(*sync.Mutex).Unlock", "(*sync.RWMutex).Unlock", "(*sync.RWMutex).RUnlock":
+		op = "unlock"
+	default:
+		return "", "", false
+	}
+	if len(c.Common().Args) == 0 {
+		return "", "", false
+	}
+	switch a := c.Common().Args[0].(type) {
+	case *ssa.FieldAddr:
+		if f := fieldVarOfAddr(a); f != nil {
+			return op, "field " + f.Name() + " of " + valText(a.X), true
+		}
+	case *ssa.Global:
+		return op, "global " + a.Name(), true
+	}
+	return op, valText(c.Common().Args[0]), true
+}
+
+func ruleLockReleased(w *World, r *Report, rule string, exceptions map[string]string, pkgs ...string) int {
+	n := 0
+	for _, fn := range w.RepoFuncs(pkgs...) {
+		keys := map[string]ssa.Instruction{}
+		instrs(fn, func(in ssa.Instruction) {
+			if _, isDefer := in.(*ssa.Defer); isDefer {
+				return
+			}
+			if op, k, ok := mutexCallKind(in); ok && op == "lock" {
+				if _, seen := keys[k]; !seen {
+					keys[k] = in
+				}
+			}
+		})
+		var ks []string
+		for k := range keys {
+			ks = append(ks, k)
+		}
+		sort.Strings(ks)
+		for _, k := range ks {
+			n++
+			construct := "mutex " + k + " locked in " + w.fname(origin(fn))
+			if why, ok := exceptions[construct]; ok {
+				r.Except(rule, construct, keys[k].Pos(), why)
+				continue
+			}
+			// state bit i: (held = i&1, deferred = i&2)
+			const (
+				sFree      = 1 << 0
+				sHeld      = 1 << 1
+				sFreeDefer = 1 << 2
+				sHeldDefer = 1 << 3
+			)
+			step := func(st uint8, in ssa.Instruction) uint8 {
+				op, kk, ok := mutexCallKind(in)
+				if !ok || kk != k {
+					return st
+				}
+				_, isDefer := in.(*ssa.Defer)
+				var out uint8
+				for _, s := range []uint8{sFree, sHeld, sFreeDefer, sHeldDefer} {
+					if st&s == 0 {
+						continue
+					}
+					held := s == sHeld || s == sHeldDefer
+					def := s == sFreeDefer || s == sHeldDefer
+					switch {
+					case isDefer && op == "unlock":
+						def = true
+					case isDefer:
+					case op == "lock":
+						held = true
+					case op == "unlock":
+						held = false
+					}
+					switch {
+					case held && def:
+						out |= sHeldDefer
+					case held:
+						out |= sHeld
+					case def:
+						out |= sFreeDefer
+					default:
+						out |= sFree
+					}
+				}
+				return out
+			}
+			inS := map[*ssa.BasicBlock]uint8{}
+			outS := map[*ssa.BasicBlock]uint8{}
+			if len(fn.Blocks) == 0 {
+				continue
+			}
+			inS[fn.Blocks[0]] = sFree
+			for changed := true; changed; {
+				changed = false
+				for i, b := range fn.Blocks {
+					st := inS[b]
+					if i > 0 {
+						st = 0
+						for _, p := range b.Preds {
+							st |= outS[p]
+						}
+					}
+					inS[b] = st
+					for _, in := range b.Instrs {
+						st = step(st, in)
+					}
+					if outS[b] != st {
+						outS[b] = st
+						changed = true
+					}
+				}
+			}
+			var leak ssa.Instruction
+			for _, b := range fn.Blocks {
+				st := inS[b]
+				for _, in := range b.Instrs {
+					if _, isRet := in.(*ssa.Return); isRet && st&sHeld != 0 && leak == nil {
+						leak = in
+					}
+					st = step(st, in)
+				}
+			}
+			if leak != nil {
+				r.Fail(rule, construct, leak.Pos(), "a path from the Lock to this return neither unlocks the mutex nor has a deferred Unlock registered: the next user of the mutex blocks forever")
+			} else {
+				r.OK(rule, construct, keys[k].Pos(), "every return after the Lock is preceded by an Unlock or covered by a deferred Unlock on that path")
+			}
+		}
+	}
+	return n
+}
